@@ -130,7 +130,7 @@ class RealSched:
             self.turn = i
             self.cv.notify_all()
             while self.turn is not None:
-                if not self.cv.wait(timeout=10):
+                if not self.cv.wait(timeout=120):
                     raise RuntimeError("scheduler: thread %d did not yield (deadlock in code under test?)" % i)
 
     def quiescent(self):
@@ -338,7 +338,7 @@ class Bracket:
     def _turn(self, tid):
         with self.cv:
             while self.pos < len(self.sched) and self.sched[self.pos][0] != tid:
-                if not self.cv.wait(timeout=20):
+                if not self.cv.wait(timeout=120):
                     self.fail = self.fail or (self.pos, "scheduler stuck")
                     self.pos = len(self.sched)
                     self.cv.notify_all()
@@ -388,7 +388,7 @@ class Bracket:
                 w.start()
             self._thread(0)
             for w in ws:
-                w.join(timeout=30)
+                w.join(timeout=180)
         finally:
             (self.gc.enable if was else self.gc.disable)()
         return self.obs, self.fail, self.mismatch
